@@ -99,6 +99,7 @@ class HEvent:
         self.build_step = None
         self.build_now = None
         self.abandoned = []         # pids interrupted away from this event before it was processed
+        self.parent = None          # enclosing condition, if this is an operand
         self.decision = None
 
 
@@ -135,7 +136,8 @@ class H:
         self.step_probes = 0
         self.problems = []
         self.log = []
-        self.expect_until = False
+        self.virtual_until = None
+        self.probe_hooks = []
         self.last_occ = None
         self.n_norm_processed = 0
         self.now_trace = []
@@ -171,18 +173,42 @@ def make_tracing(base, peek=False):
                 raise HarnessError("agenda entries are not (..., Event) tuples")
             occ = self.h.by_event.get(id(ev))
             if occ is None or occ.event is not ev:
+                return self._bind_until(ev)
+            return occ
+
+        def h_expect_until(self, t):
+            """the harness is about to call run(until=<number t>): the stop is an urgent occurrence due at exactly t,
+            triggered now (reference agenda entry; bound to the kernel's sentinel event when that shows up)"""
+            h = self.h
+            occ = Occ(len(h.occs), "until", "U", t, self.now, h.step_no, None)
+            h.occs.append(occ)
+            heapq.heappush(h.pending, (occ.key(), occ))
+            h.virtual_until = occ
+            return occ
+
+        def _bind_until(self, event):
+            h = self.h
+            occ = h.virtual_until
+            if occ is None or occ.event is not None or type(event) is not Event or id(event) in h.hevs:
                 return None
+            occ.event = event
+            h.by_event[id(event)] = occ
+            h.virtual_until = None
             return occ
 
         def schedule(self, event, priority=1, delay=0):
             h = self.h
+            occ = self._bind_until(event)
+            if occ is not None:
+                if not self._peek_mode:
+                    env = self
+                    event.callbacks.insert(0, lambda ev, occ=occ: env._probe(occ))
+                super().schedule(event, priority, delay)
+                return
             if isinstance(event, Initialize):
                 kind, cls = "init", "U"
             elif isinstance(event, Interruption):
                 kind, cls = "intr", "U"
-            elif h.expect_until and type(event) is Event:
-                kind, cls = "until", "U"
-                h.expect_until = False
             elif isinstance(event, Timeout):
                 kind, cls = "timeout", "N"
             elif isinstance(event, Condition):
@@ -225,6 +251,8 @@ def make_tracing(base, peek=False):
             occ.proc_step = h.step_no
             occ.proc_now = None if self._peek_mode else self.now
             h.cur_occ = occ
+            for hook in h.probe_hooks:
+                hook(occ)
             # reference agenda: the occurrence processed must be the minimum of what is pending
             while h.pending and h.pending[0][1].proc_step is not None and h.pending[0][1] is not occ:
                 heapq.heappop(h.pending)
@@ -265,6 +293,15 @@ def make_tracing(base, peek=False):
                 occ = self._head_occ()
                 if occ is not None:
                     self._probe(occ)
+            elif pk != inf and h.virtual_until is not None and isinstance(getattr(self, "_queue", None), list):
+                # probe mode: a sentinel pushed onto the agenda without schedule() gets its probe here
+                head = self._queue[0]
+                ev = head[-1] if isinstance(head, tuple) else None
+                if isinstance(ev, Event) and id(ev) not in h.by_event:
+                    occ = self._bind_until(ev)
+                    if occ is not None:
+                        env = self
+                        ev.callbacks.insert(0, lambda e, occ=occ: env._probe(occ))
             try:
                 super().step()
             except BaseException as e:
@@ -280,7 +317,8 @@ def make_tracing(base, peek=False):
             h.now_trace.append(now)
             if h.cur_occ is None:
                 if exc is None:
-                    h.flag("harness", "a step processed an event that never went through schedule()", "harness/unseen")
+                    h.flag("C01.untriggered", "a step processed an occurrence that was never triggered through schedule() "
+                                              "nor announced as a run(until) stop", "C01.untriggered")
                 return
             occ = h.cur_occ
             if exc is None or occ.event.callbacks is None:
@@ -331,8 +369,13 @@ class VirtualClock:
         else:
             self.zero_run = 0
         self.sleeps.append((d, f))
+        if len(self.sleeps) > 100000:
+            raise HarnessError("virtual clock: runaway sleep loop")
         if d > 0:
-            self.t += d * f
+            adv = d * f
+            if adv < 2.0 ** -16 or self.t + adv == self.t:
+                adv = d         # a real sleep always makes progress; tiny early-return slices would vanish in rounding
+            self.t += adv
 
     def burn(self, w):
         self.t += w
@@ -429,6 +472,9 @@ class Interp:
             raise
         except HarnessError as e:
             self.h.fatal = e
+            raise
+        except Violation as v:
+            self.h.problems.append(v)
             raise
         except _Terminate as t:
             self._end(pid, ("ok", t.value))
@@ -859,6 +905,7 @@ class Interp:
             hev.build_step = h.step_no
             hev.build_now = self.env.now
             for k, was in zip(kids, pre):
+                k.parent = hev
                 if not was:
                     k.cond_regs.append(hev)
             return hev
@@ -885,6 +932,9 @@ def eval_cond(hev):
     for key, now, out in checks:
         count += 1
         if out is None:
+            k = kids[key[2]]
+            if k.kind == "C":
+                raise Violation("C05.early", f"{k.name} was processed although its predicate does not hold", "C05.early/nested")
             raise HarnessError("processed operand without outcome")
         if out[0] == "exc":
             return (key[0], now, out)
@@ -934,9 +984,19 @@ def predicted_unhandled(occ):
     for c in hev.cond_regs:
         # a condition still undecided when the operand is processed takes the failure over; a condition
         # triggered during this operand's own step was triggered by this very failure
-        if c.occ is None or c.occ.trig_step >= occ.proc_step:
+        if (c.occ is None or c.occ.trig_step >= occ.proc_step) and not detached(c, occ.proc_step):
             return False
     return True
+
+
+def detached(c, step):
+    """an enclosing condition processed before `step` has removed c's check callbacks from c's operands"""
+    a = c.parent
+    while a is not None:
+        if a.processed_step is not None and a.processed_step < step:
+            return True
+        a = a.parent
+    return False
 
 
 class RunResult:
@@ -994,7 +1054,10 @@ def drive_exhaust(env, interp, budget=STEP_BUDGET):
             raise Inconclusive("step budget")
         try:
             env.step()
-        except (Violation, HarnessError, WatchdogTrip, Inconclusive):
+        except (HarnessError, WatchdogTrip, Inconclusive):
+            raise
+        except Violation:
+            check_problems(h)
             raise
         except BaseException as e:
             return _judge_raise(env, interp, e)
